@@ -39,22 +39,33 @@ impl Check for C02 {
     }
     fn lanes(&self, tier: Tier) -> Vec<(&'static str, usize, usize)> {
         match tier {
-            Tier::Quick => vec![("mall", 4000, 400), ("sane", 4000, 400)],
-            Tier::Thorough => vec![("mall", 300_000, 500), ("sane", 300_000, 500)],
+            Tier::Quick => vec![("mall", 5000, 400), ("sane", 5000, 400), ("sane-or-heavy", 5000, 500)],
+            Tier::Thorough => vec![("mall", 300_000, 500), ("sane", 300_000, 500), ("sane-or-heavy", 300_000, 600)],
         }
     }
     fn run_case(&self, lane: &str, src: &mut Src, rep: &mut Report) -> Result<(), Failure> {
-        let sane = lane == "sane";
+        // lane sane-or-heavy: nested disjunctions / thresholds of signature branches with a signer
+        // who holds (almost) everything: holding MORE must never make funds unspendable
+        let heavy = lane == "sane-or-heavy";
+        let sane = lane == "sane" || heavy;
         let mut kind = pick_kind(src);
         if sane && kind == DescKind::Bare {
             kind = DescKind::Wsh;
         }
-        let size = src.range(1, 7);
+        if heavy && !matches!(kind, DescKind::Wsh | DescKind::ShWsh | DescKind::Sh | DescKind::TrTree) {
+            kind = if src.bool() { DescKind::Wsh } else { DescKind::TrTree };
+        }
+        let size = if heavy { src.range(3, 9) } else { src.range(1, 7) };
         let d = gen::gen_desc(src, kind, &|ctx| {
             let mut c = if sane { Cfg::sane(ctx, size) } else { Cfg::new(ctx, size) };
             c.key_style = KeyStyle::Rich;
             c.allow_uncompressed = true;
             c.max_thresh_n = 4;
+            if heavy {
+                c.or_boost = 4;
+                c.leaf_w = [8, 1, 2];
+                c.key_style = KeyStyle::Hex;
+            }
             c
         });
         let sugar = src.bool();
@@ -71,7 +82,7 @@ impl Check for C02 {
             rep.class("not-sane");
             return Ok(());
         }
-        let mut world = gen::gen_world(src, &d);
+        let mut world = if heavy && src.chance(2, 3) { gen::gen_full_world(src, &d) } else { gen::gen_world(src, &d) };
         if sane {
             world.preimages = keys::u().preimages.iter().copied().collect();
         }
